@@ -8,11 +8,16 @@ def errorTypes : List String := ["assert.withAssertionFailure", "barriers.barrie
 def recvMutations : List (String × String × String) := []
 
 /-- (package, function, lvalue): writes to package-level variables outside init -/
-def globalWrites : List (String × String × String) := [("errbase", "RegisterLeafDecoder", "leafDecoders[theType]"),
+def globalWrites : List (String × String × String) := [("errbase", "RegisterLeafDecoder", "delete(leafDecoders)"),
+  ("errbase", "RegisterLeafDecoder", "leafDecoders[theType]"),
+  ("errbase", "RegisterWrapperDecoder", "delete(decoders)"),
   ("errbase", "RegisterWrapperDecoder", "decoders[theType]"),
+  ("errbase", "RegisterMultiCauseDecoder", "delete(multiCauseDecoders)"),
   ("errbase", "RegisterMultiCauseDecoder", "multiCauseDecoders[theType]"),
   ("errbase", "SetWarningFn", "warningFn"),
+  ("errbase", "RegisterLeafEncoder", "delete(leafEncoders)"),
   ("errbase", "RegisterLeafEncoder", "leafEncoders[theType]"),
+  ("errbase", "RegisterWrapperEncoderWithMessageType", "delete(encoders)"),
   ("errbase", "RegisterWrapperEncoderWithMessageType", "encoders[theType]"),
   ("errbase", "RegisterSpecialCasePrinter", "specialCases"),
   ("errbase", "RegisterTypeMigration", "backwardRegistry[newKey]"),
